@@ -487,17 +487,24 @@ func (c *ctx) prologue() {
 		// recordsThenNames: in function d, a write into a map (the set of recorded expressions) at the top level of
 		// the body precedes the top-level return of a hoisted name
 		recordsThenNames := func(dfc *fileCtx, d *ast.FuncDecl) bool {
-			var rec ast.Node
+			// the records: writes into a map; each with the statement list it stands in (the body, or the clause of a
+			// switch that took over from an early-return chain)
+			var recs []ast.Node
 			astx.Writes(d.Body, func(l ast.Expr, at ast.Node) {
-				if ix, ok := astx.Unparen(l).(*ast.IndexExpr); ok && isMapType(info.TypeOf(ix.X)) && dfc.par[at] == ast.Node(d.Body) {
-					rec = at
+				if ix, ok := astx.Unparen(l).(*ast.IndexExpr); ok && isMapType(info.TypeOf(ix.X)) {
+					recs = append(recs, at)
 				}
 			})
 			good := false
 			ast.Inspect(d.Body, func(n ast.Node) bool {
 				ret, ok := n.(*ast.ReturnStmt)
 				if ok && len(ret.Results) == 1 && c.isHoistedName(dfc, ret.Results[0]) {
-					good = rec != nil && rec.Pos() < ret.Pos() && dfc.par[ret] == ast.Node(d.Body)
+					good = false
+					for _, rec := range recs {
+						if rec.Pos() < ret.Pos() && dfc.par[rec] == dfc.par[ret] {
+							good = true
+						}
+					}
 				}
 				return true
 			})
@@ -646,7 +653,52 @@ func (c *ctx) inversion() {
 		return true
 	})
 	if ts == nil {
-		c.s.Unk("G14", "invertCffConstraint|type switch", c.pos(fd), "no type switch over the constraint expression")
+		// the same recursion written as a chain of type assertions: which node kinds are told apart and which
+		// children are recursed into can still be read; where exactly the cff tag is replaced is left to the truth
+		// tables of the regenerated corpora (V21)
+		self := info.Defs[fd.Name]
+		asserted := map[string]bool{}
+		recursedInto := map[string]bool{}
+		ast.Inspect(fd.Body, func(n ast.Node) bool {
+			switch x := n.(type) {
+			case *ast.TypeAssertExpr:
+				if x.Type != nil {
+					if p, ok := info.TypeOf(x.Type).(*types.Pointer); ok {
+						if nt, ok := p.Elem().(*types.Named); ok && nt.Obj().Pkg() == cp {
+							asserted[nt.Obj().Name()] = true
+						}
+					}
+				}
+			case *ast.CallExpr:
+				if astx.IdentObj(info, x.Fun) == self && len(x.Args) == 1 {
+					if u, ok := x.Args[0].(*ast.UnaryExpr); ok && u.Op == token.AND {
+						if se, ok := u.X.(*ast.SelectorExpr); ok {
+							if p, ok := info.TypeOf(se.X).(*types.Pointer); ok {
+								if nt, ok := p.Elem().(*types.Named); ok {
+									recursedInto[nt.Obj().Name()+"."+se.Sel.Name] = true
+								}
+							}
+						}
+					}
+				}
+			}
+			return true
+		})
+		if len(asserted) == 0 {
+			c.s.Unk("G14", "invertCffConstraint|type switch", c.pos(fd), "no type switch over the constraint expression, and no type assertions either")
+			return
+		}
+		for name, nt := range want {
+			c.s.Check(asserted[name], "G14", "invertCffConstraint|handles *constraint."+name, c.pos(fd), "told apart by a type assertion", "constraint node kind "+name+" is not told apart: cff tags under it are left as they are")
+			st, _ := nt.Underlying().(*types.Struct)
+			for i := 0; st != nil && i < st.NumFields(); i++ {
+				f := st.Field(i)
+				if types.Identical(f.Type(), cp.Scope().Lookup("Expr").Type()) {
+					c.s.Check(recursedInto[name+"."+f.Name()], "G14", fmt.Sprintf("invertCffConstraint|case *%s recurses into %s", name, f.Name()), c.pos(fd), "", fmt.Sprintf("sub-expression %s of %s is not visited: a cff tag nested there is not inverted", f.Name(), name))
+				}
+			}
+		}
+		c.s.OK("G14", "invertCffConstraint|replacement of the cff tag", c.pos(fd), "written as a chain of type assertions: which tag is replaced by what is decided on the regenerated corpora (V21, all tag assignments)")
 		return
 	}
 	self := info.Defs[fd.Name]
